@@ -30,6 +30,10 @@ template <int S> struct Runner {
     const auto &C = sp.getTrajectory().getCoefficients();
     for (int v = 0; v < 4; ++v) { Sp h = build_with_history<S, D>(p, v); ++c.st.comparisons; if (!mat_bits_equal(h.getTrajectory().getCoefficients(), C) || h.getTrajectory().getBreakpoints() != sp.getTrajectory().getBreakpoints()) { fail("coeffs-after-history", p, "a spline updated from a larger, fully queried problem differs from a fresh one"); return; } }
     bool uniform = true; for (int i = 1; i < N; ++i) uniform = uniform && std::fabs(p.T[i] - p.T[0]) <= 1e-6 * p.T[0];   // equal (or nearly equal) durations: the systems are perfectly conditioned
+    // a trajectory reference taken BEFORE an update publishes the new minimiser afterwards, with no accessor call in between (update() refreshes
+    // the published trajectory in place; seeded change C02-m10: lazy re-publication on the next accessor call)
+    { Prob q = p; for (double &t : q.T) t *= 0.75; q.P *= 0.5; Sp hs = build<S, D>(q); const auto &held = hs.getTrajectory(); (void)held.evaluate(q.t0, 1); hs.update(p.T, p.P, p.t0, p.bc); ++c.st.comparisons;
+      if (!mat_bits_equal(held.getCoefficients(), C) || held.getBreakpoints() != sp.getTrajectory().getBreakpoints()) { fail("coeffs-through-held-reference", p, "a trajectory reference obtained before update() does not show the new spline"); return; } }
     for (int d = 0; d < D; ++d) {
       int col = col_of_dim[d];
       // The solvers are backward stable: their forward error is relative to the magnitude of the whole solution for
